@@ -45,6 +45,10 @@ pub fn subjects(tier: Tier) -> Vec<Subject> {
         for ring in [Ring::AtomicMove, Ring::FullSyncMove, Ring::AtomicZeroCopy, Ring::FullSyncZeroCopy] {
             v.push(Subject { name: format!("ring-{}/N{n}", ring.name()), n, depth: if n == 2 { d(10, 13) } else { d(10, 14) }, build: Arc::new(move |o| chanseq::ring_sys(ring, n, o)) });
         }
+        // the same movable rings with elements that have a destructor: the teardown must destroy exactly the leftovers
+        for atomic in [true, false] {
+            v.push(Subject { name: format!("dropring-{}/N{n}", if atomic { "AtomicMove" } else { "FullSyncMove" }), n, depth: if n == 2 { d(7, 9) } else { d(8, 10) }, build: Arc::new(move |o| chanseq::drop_ring_sys(atomic, n, o)) });
+        }
         for atomic in [true, false] {
             v.push(Subject { name: format!("alloc-{}/P{n}", if atomic { "AllocatorAtomicArray" } else { "AllocatorFullSyncArray" }), n, depth: if n == 2 { d(8, 11) } else { d(7, 9) }, build: Arc::new(move |o| chanseq::alloc_sys(atomic, n, o)) });
         }
